@@ -16,7 +16,7 @@ Decided:
 """
 from ..flow import arg_origins, origins
 from ..mir import CallSite, op_const, op_local, try_edges
-from ..util import (POLL, agg_assigns, bool_edges, call_true_false_edges, polls, result_return_kinds, switches_on,
+from ..util import (POLL, effective_callers, flag_switches, agg_assigns, bool_edges, call_true_false_edges, polls, result_return_kinds, switches_on,
                     unreachable_without, where)
 
 LEVEL = "other"
@@ -44,7 +44,7 @@ MUTATORS = ("remove", "retain", "retain_mut", "clear", "pop", "truncate", "drain
 def check(ctx):
     prog = ctx.prog
     R1 = ctx.rule("R1", "register_account only when no URL is stored, the external binding changed, or the CA reported accountDoesNotExist")
-    callers = {k.split("::{closure")[0] for k in prog.callers_of(REG)}
+    callers = effective_callers(prog, REG)
     allowed = {SYNC, ACC + "::register", UPC, UPK}
     ctx.require(R1, callers <= allowed and SYNC in callers, "acmed/src/acme_proto/account.rs", "register_account callers = %s" % sorted(callers), [REG, "callers"])
     sb = prog.async_body(SYNC)
@@ -100,21 +100,24 @@ def check(ctx):
     upk_polls = polls(sb, UPK)
     ctx.floor(R2, "update_account_contacts call in synchronize", len(upc), 1)
     ctx.floor(R2, "update_account_key await in synchronize", len(upk_polls), 1)
-    kc = sb.locals_named("key_changed")
-    unchanged_edges = []
-    if kc:
-        for sbb, neg in switches_on(sb, kc[0]):
-            t, f = bool_edges(sb, sbb)
-            unchanged_edges.append((sbb, t if neg else f))
-        src = origins(sb, kc[0])
-        ctx.require(R2, (ACCEP, "key_hash") in src.fields and any(x.is_("acmed::account::hash_key") for x in src.calls), "%s:%s" % (sb.file, sb.line),
-                    "key_changed = hash_key(current_key) != endpoint.key_hash", [SYNC, "key-changed-def"])
-    else:
-        # no flag: look for a direct comparison of key hashes
-        for c in sb.calls:
-            if c.fn in ("core::cmp::PartialEq::ne", "core::cmp::PartialEq::eq") and (ACCEP, "key_hash") in (arg_origins(c, 0).fields | arg_origins(c, 1).fields):
-                t, f = call_true_false_edges(sb, c)
-                unchanged_edges += f if c.fn.endswith("::ne") else t
+    # the key-changed test: a bool computed from hash_key(..) and the endpoint's stored key_hash (`key_changed` today), found by
+    # provenance; `==`/`!=` orientation is read off the comparison
+    def cmp_edges(field, fn_name):
+        changed, unchanged = [], []
+        def pred(sl):
+            return (ACCEP, field) in sl.fields and any(x.is_(fn_name) for x in sl.calls) and not any((ACCEP, f2) in sl.fields for f2 in ("key_hash", "contacts_hash") if f2 != field)
+        tr, fl = flag_switches(sb, pred)
+        for (sbb, t), (_, f) in zip(tr, fl):
+            sl = origins(sb, sb.term(sbb)["discr"])
+            ne = any(v.endswith("::ne") for v in sl.via) or "binop:Ne" in sl.via
+            eq = any(v.endswith("::eq") for v in sl.via) or "binop:Eq" in sl.via
+            if ne == eq:
+                continue
+            changed.append((sbb, t if ne else f))
+            unchanged.append((sbb, f if ne else t))
+        return changed, unchanged
+    changed, unchanged_edges = cmp_edges("key_hash", "acmed::account::hash_key")
+    ctx.require(R2, bool(changed), "%s:%s" % (sb.file, sb.line), "synchronize tests hash_key(current_key) against endpoint.key_hash", [SYNC, "key-changed-def"])
     r = sb.reachable_flags(0, removed_nodes=[p.bb for p in upk_polls], removed_edges=unchanged_edges)
     bad = [c for c in upc if c.bb in r]
     ctx.require(R2, bool(unchanged_edges) and not bad, bad[0].where() if bad else (upc[0].where() if upc else "-"),
@@ -122,14 +125,12 @@ def check(ctx):
                 [SYNC, "contacts-before-key"])
     # the key update itself is conditional on key_changed
     upk = sb.calls_to(UPK)
-    changed = [(s_, (f if n else t)) for s_, n in (switches_on(sb, kc[0]) if kc else []) for t, f in [bool_edges(sb, s_)]]
     good, hit = unreachable_without(sb, [c.bb for c in upk], removed_edges=changed)
     ctx.require(R2, bool(changed) and good, upk[0].where() if upk else "-", "update_account_key runs only when the key fingerprint changed (one update per changed item)", [SYNC, "key-update-condition"])
-    cc = sb.locals_named("contacts_changed")
-    if cc:
-        changed_c = [(s_, (f if n else t)) for s_, n in switches_on(sb, cc[0]) for t, f in [bool_edges(sb, s_)]]
+    changed_c, _u = cmp_edges("contacts_hash", "acmed::account::hash_contacts")
+    if changed_c:
         good, hit = unreachable_without(sb, [c.bb for c in upc], removed_edges=changed_c)
-        ctx.require(R2, bool(changed_c) and good, upc[0].where() if upc else "-", "update_account_contacts runs only when the contacts fingerprint changed", [SYNC, "contacts-update-condition"])
+        ctx.require(R2, good, upc[0].where() if upc else "-", "update_account_contacts runs only when the contacts fingerprint changed", [SYNC, "contacts-update-condition"])
 
     R3 = ctx.rule("R3", "key roll-over: old key = get_past_key(endpoint.key_hash); oldKey = its JWK; account = stored URL; posted to keyChange")
     kb = prog.async_body(UPK)
